@@ -73,7 +73,7 @@ _PLAIN = ['a', 'b', 'a', 'b', 'ab', 'S', '_', 'é']
 _SPECIAL_NAKED = ['@', '[', ']', '#', '#', '\\', '\\', '=', ':', '|', '(', ')', '{', '}', '!', '&', '-', '<', '>',
                   '&&', '||', '-x', '--', ':>', '<<', '@[', ']@', '@[S', 'S]@', '@[]@', '@[S ]@', '@[é]@', '@[SS]@']
 NAKED_ATOMS = _PLAIN * 3 + _SPECIAL_NAKED + REFS * 3
-_QUOTED_EXTRA = [' ', ' ', '  ', '\t', '\n', ' # ', ' = ']
+_QUOTED_EXTRA = [' ', ' ', '  ', '\t', '\n', '\n', 'a\nb', ' # ', ' = ']
 RESERVED = ['(', ')', '[', ']', '{', '}', '=', '|', ':', '!', '&&', '||']
 MARKERS = ['EOF', 'E-O_F', '0', '-', 'eof', 'X1', 'MARKER_']
 
@@ -124,13 +124,14 @@ class _Strategies:
         self.eol_item = _text(eol, 0, 6).map(lambda t: ['eol', t])
         self.here_item = st.sampled_from(MARKERS).flatmap(
             lambda m: st.tuples(st.just('here'), st.just(m), self._here_lines(m, u),
-                                st.sampled_from([True] * 7 + [False])).map(list))
+                                st.sampled_from([True, False, True, True, True, True])).map(list))
         ws1 = [' ', ' ', ' ', ' ', '  ', '\t', ' \t '] + [' ' + c + ' ' for c in u]
         self.seps_1line = ws1
         self.seps = ws1 + [' \\\n', ' \\\n  ', '\t\\\n\t', ' \\ \n ', ' \\\n \\\n '] + \
                     [' \\' + c + '\n ' for c in u] + [' ' + c + '\\\n ' for c in u]
-        self.pre = ['', '', '', ' ', '\t'] + [c + ' ' for c in u] + list(u)
-        self.tail = ['', '', '', ' ', ' \t'] + [' ' + c for c in u] + list(u) + [' ' + c + ' ' for c in u]
+        self.pre = ['', '', '', ' ', '\t'] * (2 if len(u) == 1 else 3) + [c + ' ' for c in u] + list(u)
+        self.tail = ['', '', '', ' ', ' \t'] * (2 if len(u) == 1 else 3) + [' ' + c for c in u] + list(u) + \
+                    [' ' + c + ' ' for c in u]
         self.htail = [''] * 6 + [' '] + [' ' + c for c in u] * 2
 
     def _here_lines(self, marker, u):
@@ -175,19 +176,19 @@ _NEXT_STRING = ['eol'] * 6 + ['arg', 'arg', 'option', 'option', 'qreserved', 'qr
 _NEXT_LIST = ['eol'] * 6 + ['paren', 'paren_nl']
 _ENDS = ['guard'] * 5 + ['next'] * 3 + ['eof_nl'] * 2 + ['eof'] * 2
 
-_uws = st.one_of(
-    st.just(()), st.just(()), st.just(()),
+_uws_some = st.one_of(
     st.sampled_from(UWS_COMMON).map(lambda c: (c,)),
     st.sampled_from(UWS_COMMON).map(lambda c: (c,)),
     st.sampled_from(list(UWS_ALL)).map(lambda c: (c,)),
     st.lists(st.sampled_from(UWS_COMMON), min_size=2, max_size=2, unique=True).map(tuple),
 )
+_uws = st.one_of(st.just(()), _uws_some)
 
 
 @st.composite
-def cli_case(draw, tier='quick'):
+def cli_case(draw, tier='quick', uws=False):
     host = draw(st.sampled_from(_HOST_WEIGHTED))
-    u = draw(_uws)
+    u = draw(_uws_some) if uws else ()
     S = _strategies(u)
     lead = draw(st.lists(st.sampled_from(_LEADS), min_size=0, max_size=3, unique=True))
     pre = draw(st.sampled_from(S.pre))
